@@ -9,13 +9,14 @@ from hv import Case
 from kern2 import Snap, fr_tok
 
 SPEC = {
-    "lean_modules": ["Honeycomb.Props.C14", "Honeycomb.Props.C14b", "Honeycomb.Props.C14c"],
+    "lean_modules": ["Honeycomb.Props.C14", "Honeycomb.Props.C14b", "Honeycomb.Props.C14c", "Honeycomb.Props.C14d"],
     "required_theorems": ["C14_insertVertices_preserves_WF", "C14_insertVertex_preserves_WF",
                           "C14_error_leaves_map_unchanged", "C14_new_vertex_position",
                           "C14_insertVertices_beta_structure", "C14_new_darts_distinct_vertices",
                           "C14_new_vertex_position_full", "C14_insertVertex_beta_structure",
                           "C14_old_vertices_unchanged", "C14_old_vertices_unchanged_single",
-                          "C14_old_vertices_keep_coordinates", "C14_old_vertices_keep_coordinates_single"],
+                          "C14_old_vertices_keep_coordinates", "C14_old_vertices_keep_coordinates_single",
+                          "C14_undefined_edge_iff", "C14_undefined_edge_iff_single"],
     "trusted_base": [
         "Lean 4.33 kernel; axioms propext, Classical.choice, Quot.sound only",
         "hand-written model Honeycomb/Model/Kernels/{Geom2,VertexInsertion}.lean (+ Stm, Map, Ops, Ops2) tied to /repo by the "
@@ -27,6 +28,8 @@ SPEC = {
     "assumptions": [
         "spare darts are distinct in-use (not removed) darts of the map; removed darts are free in the sense of is_free and are "
         "accepted by the code (exercised in the malformed stream, correspondence only)",
+        "C14_undefined_edge_iff(_single): the map is well formed and has its vertex storage (0 < a.size), the edge dart is a "
+        "non-null dart of the map",
     ],
     "rule": "exhaustive: every WF 2-map with n<=3 darts (removed darts included) x every in-use dart as edge argument (two-dart, one-dart, "
             "1-free at either end, closed face, dangling) x insert_vertex_on_edge (t in {None,1/2,1/4}, both spare orders, nd2 = 0 on "
@@ -39,8 +42,10 @@ SPEC = {
             "unchanged; invalid inputs are refused with the documented error kind, valid ones accepted. "
             "distinct_nontrivial = distinct implementation transcripts.",
     "not_proved": [
-        "the UndefinedEdge error as an exact characterisation (needs totality of the vertex-id BFS inside the kernel); the direction "
-        "'Ok => both end points defined' is part of C14_ok_implies_guards",
+        "UndefinedEdge is now an exact characterisation (C14_undefined_edge_iff, C14_undefined_edge_iff_single, Props/C14d.lean: "
+        "when the earlier checks pass the answer is UndefinedEdge iff the edge has no second end point or one end point has no value "
+        "under its vertex id; then nothing is written); left out: insert_vertex_on_edge on a dart with NO second end point (beta1 = "
+        "beta2 = 0), where the kernel reads the slot of the null dart's identifier — covered by the oracle only",
     ],
 }
 
